@@ -188,6 +188,10 @@ VARIANTS = {
     'highsn': {'ka': 0, 'kb': 0, 'ks': 10, 'kz': 24},
 }
 SHIFT_Z = [1, -1, 2]                         # LinSolve!ShiftZ
+# 'units' variant: A, b, sqivar scaled independently by 2^ka, 2^kb, 2^ks drawn per case (tiny and huge units);
+# every product formed on the way (normal matrix ~2^(2ka+2ks), chi2 ~2^(2kb+2ks), ...) stays far inside the
+# double range (|exponent| <= 200 < 1022), so a correct solver is scale-covariant over the whole range.
+UNITS_KA, UNITS_KB, UNITS_KS = 60, 60, 40
 
 
 def transform(c, exp, variant):
@@ -196,7 +200,10 @@ def transform(c, exp, variant):
     A, b, s = c['A'], c['b'], c['s']
     e = {'acoeff': [fr(q) for q in exp['acoeff']], 'yfit': [fr(q) for q in exp['yfit']], 'chi2': fr(exp['chi2']),
          'dof': exp['dof'], 'covar': [[fr(q) for q in row] for row in exp['covar']], 'var': [fr(q) for q in exp['var']]}
-    v = VARIANTS[variant]
+    if isinstance(variant, (list, tuple)):       # ('units', ka, kb, ks)
+        v = {'ka': variant[1], 'kb': variant[2], 'ks': variant[3], 'kz': None}
+    else:
+        v = VARIANTS[variant]
     if v is None:
         return A, b, s, e
     M = len(A[0])
@@ -206,15 +213,20 @@ def transform(c, exp, variant):
         b = [bi + azi for bi, azi in zip(b, az)]
         e['acoeff'] = [x + zj for x, zj in zip(e['acoeff'], z)]
         e['yfit'] = [y + azi for y, azi in zip(e['yfit'], az)]
-    fa, fb, fs = 2 ** v['ka'], 2 ** v['kb'], 2 ** v['ks']
-    A2 = [[fa * x for x in row] for row in A]
-    b2 = [fb * x for x in b]
-    s2 = [fs * x for x in s]
-    e['acoeff'] = [x * Fraction(fb, fa) for x in e['acoeff']]
+    fa, fb, fs = Fraction(2) ** v['ka'], Fraction(2) ** v['kb'], Fraction(2) ** v['ks']
+    if min(v['ka'], v['kb'], v['ks']) >= 0:
+        A2 = [[int(fa) * x for x in row] for row in A]
+        b2 = [int(fb) * x for x in b]
+        s2 = [int(fs) * x for x in s]
+    else:                                        # powers of two times small integers: exact in binary floating point
+        A2 = [[float(x) * 2.0 ** v['ka'] for x in row] for row in A]
+        b2 = [float(x) * 2.0 ** v['kb'] for x in b]
+        s2 = [float(x) * 2.0 ** v['ks'] for x in s]
+    e['acoeff'] = [x * fb / fa for x in e['acoeff']]
     e['yfit'] = [y * fb for y in e['yfit']]
     e['chi2'] = e['chi2'] * (fb * fs) ** 2
-    e['covar'] = [[x / Fraction((fa * fs) ** 2) for x in row] for row in e['covar']]
-    e['var'] = [x / Fraction((fa * fs) ** 2) for x in e['var']]
+    e['covar'] = [[x / (fa * fs) ** 2 for x in row] for row in e['covar']]
+    e['var'] = [x / (fa * fs) ** 2 for x in e['var']]
     return A2, b2, s2, e
 
 
@@ -254,15 +266,17 @@ def attr_order(rng):
 
 def check_wls(ctx, rep, c, exp, variant, order):
     A, b, s, e = transform(c, exp, variant)
-    obs = run_chi2(A, b, s, c['conv'], order)
-    ctx.evaluated(1, 'wls-%s-%s' % (c['conv'], variant))
+    vname = variant if isinstance(variant, str) else variant[0]
+    conv = c['conv'] if not (vname == 'units' and c['conv'] == 'int') else '2d'      # non-integers / beyond int64
+    obs = run_chi2(A, b, s, conv, order)
+    ctx.evaluated(1, 'wls-%s-%s' % (conv, vname))
     bad = wls_mismatch(obs, e, b, s)
     if bad:
         finding = 'D-C15-1' if (c['conv'] == '1d' and obs['err']) else None
-        rep('wls-' + ('1d-raises' if finding else bad.split()[0] + ('' if variant == 'plain' else '-' + variant)),
+        rep('wls-' + ('1d-raises' if finding else bad.split()[0] + ('' if vname == 'plain' else '-' + vname)),
             {'what': 'computechi2(A=%s, b=%s, sqivar=%s, conv=%s) [%s variant of the enumerated system]: %s differs from '
                      'the exact weighted least-squares record (expected acoeff %s chi2 %s, observed %s)' % (
-                         A, b, s, c['conv'], variant, bad, [str(x) for x in e['acoeff']], e['chi2'],
+                         A, b, s, conv, variant, bad, [str(float(x)) for x in e['acoeff']], float(e['chi2']),
                          {k: obs.get(k) for k in ('acoeff', 'chi2', 'dof', 'exc')}),
              'kind': 'wls', 'call': {k: c[k] for k in ('A', 'b', 's', 'conv')}, 'variant': variant, 'order': order,
              'expected': exp},
@@ -282,6 +296,9 @@ def replay_wls(ctx, rep, rng, c, exp, n):
     if not bad:
         # the same system with large values / weights and as a nearly exact fit of a large signal
         check_wls(ctx, rep, c, exp, 'scaled' if n % 2 else 'highsn', attr_order(rng))
+        # ... and in tiny / huge units, independently for A, b and sqivar
+        check_wls(ctx, rep, c, exp, ('units', rng.randint(-UNITS_KA, UNITS_KA), rng.randint(-UNITS_KB, UNITS_KB),
+                                     rng.randint(-UNITS_KS, UNITS_KS)), attr_order(rng))
 
 
 # ----------------------------------------------------------------------------------------------
